@@ -68,6 +68,9 @@ def op_term(op):
     if n == "CONT_SLICED":
         sched = g(1, []) or []
         return "(HContSliced [" + ";".join(f"{int(x)}%N" for x in sched if isinstance(x, int) and x >= 0) + "])"
+    if n == "CHOOSE_END":
+        k = g(1, 0)
+        return f"(HChooseEnd {int(k) if isinstance(k, int) and k >= 0 else 0}%nat)"
     if n == "CHOOSE":
         i = g(1, 0)
         return f"(HChoose ({int(i) if isinstance(i, int) else 0})%Z)"
